@@ -361,4 +361,32 @@ MUTANTS = {
         "props": ["C13"],
         "edits": [(ST, "        anno = make_generator(yield_type, NoneType, return_type)", "        anno = make_generator(yield_type, return_type, return_type)")],
     },
+    "c01_first_trace_only": {
+        "props": ["C01"],
+        "edits": [(ST, "    for t in traces:\n        for arg, typ in t.arg_types.items():\n            arg_types[arg].add(typ)", "    for t in list(traces)[:3]:\n        for arg, typ in t.arg_types.items():\n            arg_types[arg].add(typ)")],
+    },
+    "c01_mixed_first_member": {
+        "props": ["C01", "C04"],
+        "edits": [(T, "    return Union[all_dict_types]", "    return Union[all_dict_types[:2]]")],
+    },
+    "c01_optional_rendered_plain": {
+        "props": ["C01"],
+        "edits": [(ST, '            return "Optional[" + self.rewrite(elem_type) + "]"', '            return self.rewrite(elem_type)')],
+    },
+    "c01_rewriter_drops_member": {
+        "props": ["C01", "C07"],
+        "edits": [(T, "            value_types.extend(e.__args__[1:])\n        return", "            value_types.extend(e.__args__[1:])\n        value_types = value_types[:2]\n        return")],
+    },
+    "c01_wrong_k_in_get_stub": {
+        "props": ["C01", "C06"],
+        "edits": [("monkeytype/cli.py", "        args.config.max_typed_dict_size(),\n        existing_annotation_strategy", "        args.config.max_typed_dict_size() + 1,\n        existing_annotation_strategy")],
+    },
+    "c01_return_type_of_first_only": {
+        "props": ["C01"],
+        "edits": [(ST, "        if t.return_type is not None:\n            return_types.add(t.return_type)", "        if t.return_type is not None and not return_types:\n            return_types.add(t.return_type)")],
+    },
+    "c01_limit_low": {
+        "props": ["C01"],
+        "edits": [("monkeytype/config.py", "        return 2000\n", "        return 3\n")],
+    },
 }
